@@ -265,10 +265,33 @@ func findEntries(l *loaded, re string, tier string) ([]*EntrySpec, error) {
 		files = append(files, name)
 	}
 	sort.Strings(files)
+	fileLevel := func(f *ast.File) [][2]string {
+		var dirs [][2]string
+		attached := map[*ast.CommentGroup]bool{}
+		for _, d := range f.Decls {
+			if fd, ok := d.(*ast.FuncDecl); ok && fd.Doc != nil {
+				attached[fd.Doc] = true
+			}
+		}
+		for _, cg := range f.Comments {
+			if !attached[cg] {
+				dirs = append(dirs, parseDirectives(cg)...)
+			}
+		}
+		return dirs
+	}
+	// directives in files named common*.go apply to every entry
+	var globalDirs [][2]string
+	for _, fname := range files {
+		if strings.HasPrefix(filepath.Base(fname), "zz_verif_common") {
+			globalDirs = append(globalDirs, fileLevel(l.astFiles[fname])...)
+		}
+	}
 	for _, fname := range files {
 		f := l.astFiles[fname]
 		// file-level directives: comment groups not attached to declarations
 		var fileDirs [][2]string
+		fileDirs = append(fileDirs, globalDirs...)
 		attached := map[*ast.CommentGroup]bool{}
 		for _, d := range f.Decls {
 			if fd, ok := d.(*ast.FuncDecl); ok && fd.Doc != nil {
